@@ -59,5 +59,16 @@ Triangle ==
         d == P * NN(y) - Q * T
     IN d <= 0 \/ d * d <= (Q * Q - NN(x) * NN(y)) * (T * T - NN(y) * NN(z))
 
+\* A point is a projective class: the metric may not depend on the representatives.  The harness supplies the two
+\* points of every pair through the representatives RepScales[i] * x, RepScales[j] * y for the listed patterns (a
+\* negative factor puts the representative on the lower sheet; equal points are then held through DIFFERENT vectors).
+RepScales == <<<<1, 1>>, <<0 - 1, 1>>, <<3, 1>>, <<0 - 1, 2>>, <<7, 10>>, <<1, 20000>>>>
+RepPatterns == {<<1, 2>>, <<3, 1>>, <<4, 3>>, <<2, 5>>, <<5, 5>>, <<1, 6>>, <<6, 4>>}
+ASSUME PrintT("REPS " \o ToJson([scales |-> RepScales, patterns |-> RepPatterns]))
+ScaleInvariant == \A p \in RepPatterns :
+                     LET a == RepScales[p[1]][1]
+                         b == RepScales[p[2]][1]
+                     IN CoshSq(VScale(a, x), VScale(b, y)) = CoshSq(x, y)
+
 EmitPair == Triples \/ PrintT("PAIR " \o ToJson([x |-> x, y |-> y, nx |-> NN(x), ny |-> NN(y), coshsq |-> CoshSq(x, y)]))
 =============================================================================
